@@ -251,28 +251,68 @@ func c15Close(c *core.Ctx, r *core.Reporter) {
 		r.Unknown("sendOneResultAndClose", token.NoPos, "not found")
 		return
 	}
-	var capv int64 = -1
-	nsend, nclose := 0, 0
-	var sendPos, closePos token.Pos
+	// every one-shot result channel made in the function (one in sendOneResultAndClose; one per inlined copy when the helper
+	// is written in place in Subscribe): capacity >= 1, exactly one send, then exactly one close
+	type oneShot struct {
+		capv           int64
+		nsend, nclose  int
+		sendPos, close token.Pos
+	}
+	chans := map[types.Object]*oneShot{}
+	info2 := p2.TypesInfo
 	ast.Inspect(fd2.Body, func(n ast.Node) bool {
-		switch x := n.(type) {
-		case *ast.CallExpr:
-			if core.IsBuiltinCall(p2.TypesInfo, x, "make") && len(x.Args) > 1 {
-				if tv := p2.TypesInfo.Types[x.Args[1]]; tv.Value != nil {
-					capv, _ = constant.Int64Val(tv.Value)
+		as, ok := n.(*ast.AssignStmt)
+		if !ok {
+			return true
+		}
+		for i, rhs := range as.Rhs {
+			call, ok := rhs.(*ast.CallExpr)
+			if !ok || !core.IsBuiltinCall(info2, call, "make") || i >= len(as.Lhs) {
+				continue
+			}
+			ch, ok := info2.TypeOf(call).Underlying().(*types.Chan)
+			if !ok || core.TypeName(ch.Elem()) != "Result" {
+				continue
+			}
+			o := core.ObjOf(info2, as.Lhs[i])
+			if o == nil {
+				continue
+			}
+			os := &oneShot{capv: 0}
+			if len(call.Args) > 1 {
+				os.capv = -1
+				if tv := info2.Types[call.Args[1]]; tv.Value != nil {
+					os.capv, _ = constant.Int64Val(tv.Value)
 				}
 			}
-			if core.IsBuiltinCall(p2.TypesInfo, x, "close") {
-				nclose++
-				closePos = x.Pos()
-			}
-		case *ast.SendStmt:
-			nsend++
-			sendPos = x.Pos()
+			chans[o] = os
 		}
 		return true
 	})
-	r.Check(capv >= 1 && nsend == 1 && nclose == 1 && sendPos < closePos, "sendOneResultAndClose", fd2.Pos(),
+	ast.Inspect(fd2.Body, func(n ast.Node) bool {
+		switch x := n.(type) {
+		case *ast.CallExpr:
+			if core.IsBuiltinCall(info2, x, "close") && len(x.Args) == 1 {
+				if os := chans[core.ObjOf(info2, x.Args[0])]; os != nil {
+					os.nclose++
+					os.close = x.Pos()
+				}
+			}
+		case *ast.SendStmt:
+			if os := chans[core.ObjOf(info2, x.Chan)]; os != nil {
+				os.nsend++
+				os.sendPos = x.Pos()
+			}
+		}
+		return true
+	})
+	okShot := len(chans) > 0
+	for _, os := range chans {
+		if !(os.capv >= 1 && os.nsend == 1 && os.nclose == 1 && os.sendPos < os.close) {
+			okShot = false
+		}
+	}
+	r.Check(okShot, "sendOneResultAndClose", fd2.Pos(),
 		"one send into capacity>=1, then one close",
 		"sendOneResultAndClose must send exactly once into a channel of capacity >= 1 and then close it (an unbuffered send blocks the caller forever)")
 }
